@@ -245,6 +245,34 @@ def derive_task(rng, g, root, lang, ops, operators, spec, canon, corrupt):
     return task, kind
 
 
+def link_shape_tasks(rng, g, root, lang, ops, operators, canon):
+    """two-step tasks [c after b] for a pair of graph nodes, in every combination of (operator given?, type given?) for both steps
+    - the table that decides between `:depends` and `:depends?` - for a dependent pair AND for one node used for both steps"""
+    from transforge.namespace import TF
+    nodes = concept_nodes(g, root)
+    out = next(iter(g.objects(root, TF.output)))
+    canon_uri = {lang.uri(G.ty_py(t, ops)): t for t in canon}
+    op_uri = {lang.uri(o): n for n, o in operators.items()}
+
+    def info(n):
+        i = nodes[n]
+        op = [op_uri[u] for u in sorted(i["via"], key=str) if u in op_uri][:1]
+        ty = sorted(canon_uri[u] for u in i["subtypeOf"] if u in canon_uri)[:1]
+        return op, ty
+    deps = sorted(nodes[out]["depends"], key=lambda n: node_key(g, n))
+    pairs = [(out, d) for d in deps[:2]] + [(out, out)]
+    tasks = []
+    for (c, b) in pairs:
+        cop, cty = info(c)
+        bop, bty = info(b)
+        for mask in range(16):
+            st_c = {"types": cty if mask & 1 else [], "ops": cop if mask & 2 else [], "from": [1]}
+            st_b = {"types": bty if mask & 4 else [], "ops": bop if mask & 8 else [], "from": []}
+            if rng.random() < 0.5:
+                tasks.append({"steps": {0: st_c, 1: st_b}, "outputs": [0], "inputs": []})
+    return tasks
+
+
 def reaches(steps, a, b):
     seen = set()
     work = [a]
@@ -296,6 +324,9 @@ def run(ctx):
             continue
         ds = dataset(lang, workflows)
         for wi, (wf, (g, text)) in enumerate(workflows.items()):
+            if wi < (3 if ctx.tier == "quick" else 10):
+                for task in link_shape_tasks(rng, g, wf, lang, ops, operators, canon):
+                    one_case(ctx, li, spec, ops, opdecls, lang, operators, canon, listed, top, workflows, ds, wf, text, task, "link-shape", gen_flags(rng))
             for k in range(4 if ctx.tier == "quick" else 8):
                 task, kind = derive_task(rng, g, wf, lang, ops, operators, spec, canon, corrupt=rng.random() < 0.4)
                 flags = gen_flags(rng)
